@@ -1,6 +1,7 @@
 package hs
 
 import (
+	"strings"
 	"bytes"
 	"context"
 	"crypto/tls"
@@ -166,7 +167,9 @@ func getServer(cfg Cfg) (*liveServer, error) {
 		b.EncryptionOptions(encList(cfg.Enc)...)
 		b.ChannelBufferSize(16)
 		b.EnableGuestAuthentication()
-		b.EnablePlainAuthentication(func(ctx context.Context, id lime.Identity, pwd string) (*lime.AuthenticationResult, error) {
+		// the authenticators answer what the case's queue says; each first checks that it was handed the
+		// credentials in the form the peer presented them (C03: "the credentials that this peer presented")
+		decide := func(id lime.Identity, asPresented bool) (*lime.AuthenticationResult, error) {
 			n, _ := CaseOfName(id.Name)
 			out := "member"
 			if v, ok := runsByN.Load(n); ok {
@@ -177,6 +180,9 @@ func getServer(cfg Cfg) (*liveServer, error) {
 					r.authQ = r.authQ[1:]
 				}
 				r.mu.Unlock()
+				if !asPresented {
+					r.log(tr.Event{K: "authargs", Res: "crossed"})
+				}
 			}
 			switch out {
 			case "member":
@@ -188,7 +194,16 @@ func getServer(cfg Cfg) (*liveServer, error) {
 				rtA.SetPasswordAsBase64("challenge")
 				return &lime.AuthenticationResult{Role: lime.DomainRoleUnknown, RoundTrip: rtA}, nil
 			}
-			return nil, errors.New("plain authenticator failed")
+			return nil, errors.New("authenticator failed")
+		}
+		b.EnablePlainAuthentication(func(ctx context.Context, id lime.Identity, pwd string) (*lime.AuthenticationResult, error) {
+			return decide(id, strings.HasPrefix(pwd, "pw-"))
+		})
+		b.EnableKeyAuthentication(func(ctx context.Context, id lime.Identity, key string) (*lime.AuthenticationResult, error) {
+			return decide(id, strings.HasPrefix(key, "pw-"))
+		})
+		b.EnableExternalAuthentication(func(ctx context.Context, id lime.Identity, token string, issuer string) (*lime.AuthenticationResult, error) {
+			return decide(id, strings.HasPrefix(token, "tok-") && strings.HasPrefix(issuer, "iss-"))
 		})
 		b.MessagesHandlerFunc(func(ctx context.Context, m *lime.Message, s lime.Sender) error {
 			sid, _ := lime.ContextSessionID(ctx)
@@ -353,7 +368,7 @@ func ReplayServer(c Case) *Result {
 	res := &Result{N: c.N, Cfg: c.Cfg}
 	r := &srvRun{c: c, names: CaseNames(c.N), wire: "clear", res: res}
 	for _, e := range c.Obs {
-		if e.K == "auth" && e.Scheme == "plain" && e.Cred != "" {
+		if e.K == "auth" && (e.Scheme == "plain" || e.Scheme == "key" || e.Scheme == "external") && e.Cred != "" {
 			r.authQ = append(r.authQ, e.Res)
 		}
 		if e.K == "reg" {
